@@ -56,7 +56,7 @@ class Run(object):
       result = 'EXC:PhaseBoom'
     elif r == 'raise_f':
       result = 'EXC:FailureExc'
-    elif r == 'bad':
+    elif r in ('bad', 'bad0'):
       result = 'EXC:InvalidPhaseResultError'
     elif r == 'fail_subtest' and subtest is None:
       result = 'EXC:InvalidPhaseResultError'
